@@ -691,6 +691,11 @@ void Adaptation::Icap::ModXact::bypassFailure()
     Must(!isRetriable); // or we should not be bypassing
     // TODO: should the same be enforced for isRepeatable? Check icap_repeat??
 
+    // A failed 200 or 206 response may leave a partially parsed adapted header
+    // behind. Nobody has seen it yet (or we would not be allowed to bypass).
+    if (adapted.header && !adapted.body_pipe)
+        HTTPMSGUNLOCK(adapted.header);
+
     prepEchoing();
 
     startSending();
@@ -911,9 +916,9 @@ void Adaptation::Icap::ModXact::handle100Continue()
 void Adaptation::Icap::ModXact::handle200Ok()
 {
     state.parsing = State::psHttpHeader;
-    state.sending = State::sendingAdapted;
-    stopBackup();
-    checkConsuming();
+    // We commit to the adapted message (and let go of the virgin one) in
+    // parseHttpHead(), when the adapted header is complete: a failure before
+    // that point may still be bypassed.
 }
 
 void Adaptation::Icap::ModXact::handle204NoContent()
@@ -1080,6 +1085,13 @@ void Adaptation::Icap::ModXact::parseHttpHead()
         // Maybe adapted.header==NULL if HttpReply and have Http 0.9 ....
         if (adapted.header)
             adapted.header->inheritProperties(virgin.header);
+    }
+
+    if (state.sending == State::sendingUndecided) { // a 200 (not 206) response
+        // we are committed to the adapted message now
+        state.sending = State::sendingAdapted;
+        stopBackup();
+        checkConsuming();
     }
 
     decideOnParsingBody();
